@@ -88,7 +88,7 @@ pub struct Obs {
     pub plutus_present: bool,
 }
 
-pub fn observe(tx: &AnyTx, metx: &MultiEraTx, utxos: &UTxOs, env: &Environment, cs: &CertState) -> Obs {
+pub fn observe(tx: &AnyTx, metx: &MultiEraTx, utxos: &UTxOs, env: &Environment, cs: &CertState, counts_override: Option<(u64, u64, u64)>) -> Obs {
     let mut cs2 = cs.clone();
     let e2e = oc(|| validate_tx(metx, 0 as TransactionIndex, env, utxos, &mut cs2));
     let mut checks: Vec<(&'static str, Oc)> = vec![];
@@ -124,6 +124,7 @@ pub fn observe(tx: &AnyTx, metx: &MultiEraTx, utxos: &UTxOs, env: &Environment, 
             let mut cs3 = cs.clone();
             let stab = 129600u64;
             checks.push(("check_certificates", oc(|| v::check_certificates(&b.certificates, 0, &mut cs3, &mut d, &mut r, &mut pc, acnt, slot, &stab, pp))));
+            if let Some((a, b2, c)) = counts_override { d = a; r = b2; pc = c }
             counts = (d, r, pc);
             checks.push(("check_preservation_of_value", oc(|| v::check_preservation_of_value(b, utxos, &d, &r, &pc, era, pp))));
             checks.push(("check_fees", oc(|| v::check_fees(b, &sz, pp))));
@@ -209,6 +210,8 @@ pub fn observe(tx: &AnyTx, metx: &MultiEraTx, utxos: &UTxOs, env: &Environment, 
         }
         _ => {}
     }
+    // with overridden counters the end-to-end outcome is the `?` chain over the rule outcomes
+    let e2e = if counts_override.is_some() && !checks.is_empty() { checks.iter().map(|c| c.1.clone()).find(|c| *c != Oc::Ok).unwrap_or(Oc::Ok) } else { e2e };
     Obs { e2e, checks, counts, size, plutus_present }
 }
 pub fn fam_name(tx: &AnyTx) -> &'static str {
